@@ -54,6 +54,21 @@ Symmetric == Expressible(K, per, orient) =>
         /\ HaloSt(b3, N, AxName(l.axis), st) = t
         /\ HaloSo(b3, N, bsd, 1) = (IF sd = 1 THEN N - 1 ELSE 0)
 
+\* the vector rule of C04 / C05: across a link, the component along axis v of the neighbour points the same way as
+\* mine exactly when the documented rule does not negate it (normal component: negated iff the link is reversed;
+\* tangential component: negated iff the link swaps axes without being reversed)
+VectorRuleOK == Expressible(K, per, orient) =>
+  \A b \in Blocks(K), ax \in {1, 2}, sd \in {0, 1} :
+     LET l == DLink(K, per, orient, b, ax, sd) IN
+     l.face = -1 \/
+     LET l3 == [face |-> l.face, axis |-> AxName(l.axis), rev |-> l.rev]
+         gb == orient[FaceNo(K, b) + 1]
+         gB == orient[l.face + 1]
+     IN /\ AxisDir(gb, ax)[1] = AxisDir(gB, l.axis)[1]                         \* my normal axis is the neighbour's link axis
+        /\ (AxisDir(gb, ax)[2] = AxisDir(gB, l.axis)[2]) <=> (LinkSign(l3, AxName(ax), AxName(ax)) = 1)
+        /\ (AxisDir(gb, 3 - ax)[2] = AxisDir(gB, 3 - l.axis)[2]) <=> (LinkSign(l3, AxName(ax), AxName(3 - ax)) = 1)
+        /\ UsesPartner(l3, AxName(ax)) <=> (l.axis # ax)
+
 \* non-vacuity: some expressible decomposition has every one of the 8 link kinds
 KindsSeen == {<<sd, DLink(K, per, orient, b, ax, sd).axis # ax, DLink(K, per, orient, b, ax, sd).rev>> :
               <<b, ax, sd>> \in {t \in Blocks(K) \X {1, 2} \X {0, 1} : DLink(K, per, orient, t[1], t[2], t[3]).face # -1}}
